@@ -409,6 +409,25 @@ def _run_case(case, pid, kf_defs=()):
     info["obligations"] = n_obl
     info["discharged"] = n_ok
     info["witnesses"] = witnesses
+    # cross-validation of the encoding: the input of one reached witness is replayed on the native build (real libc, real
+    # library, sanitizers); the same harness must reach the same witness point there and no assertion may fail
+    info["witness_validated"] = None
+    if os.environ.get("VERIF_VALIDATE_WITNESS", "1") == "1":
+        for res in results:
+            if is_witness(res) and res["status"] == "FAILURE" and "trace" in res:
+                vals = vin_from_trace(res["trace"])
+                wpath = os.path.join(wd, "witness.vin")
+                with open(wpath, "w") as fh:
+                    fh.write(vin_to_text(vals, "witness " + res.get("description", "")))
+                wexe, werr = build_replay(case, wd, kf_defs)
+                if wexe is None:
+                    info["witness_validated"] = dict(ok=False, why="native build failed: " + (werr or "")[-300:])
+                else:
+                    verdict, label, txt = run_replay(wexe, wpath)
+                    want = "REPLAY-WITNESS " + res.get("description", "")[len("WITNESS "):]
+                    info["witness_validated"] = dict(ok=(verdict == "pass" and want in txt), verdict=verdict, label=label,
+                                                     witness=res.get("description"))
+                break
     info["failures"] = []
     unreached = [w["label"] for w in witnesses if not w["reached"] and w["label"] not in case.optional_witness]
     if not witnesses:
@@ -613,6 +632,7 @@ def run_property(pid, tier, cases, meta, jobs=None):
                  note=i.get("note"), cmd=i.get("cmd"))
         ws = i.get("witnesses") or []
         s["witnesses"] = [dict(label=w["label"], reached=w["reached"], input=w.get("input")) for w in ws][:6]
+        s["witness_validated_natively"] = i.get("witness_validated")
         if i.get("failures"):
             s["failures"] = [{k: v for k, v in f.items() if k != "trace"} for f in i["failures"]][:10]
         if i.get("error"):
@@ -644,6 +664,9 @@ def run_property(pid, tier, cases, meta, jobs=None):
             explanation=meta.get("explanation", ""),
             known_findings=[dict(id=k["id"], status=k["status"], what=k["what"]) for k in known],
             inconclusive=inconclusive,
+            traces_validated_against_impl=sum(1 for i in infos if (i.get("witness_validated") or {}).get("ok")),
+            witness_replays_not_matching=[dict(case=i["case"], detail=i.get("witness_validated")) for i in infos
+                                          if i.get("witness_validated") is not None and not i["witness_validated"].get("ok")][:20],
         ),
         assumptions=meta.get("assumptions", []) + ["sources compiled from %s working tree at run time" % REPO],
         wall_s=round(time.time() - t0, 2),
